@@ -35,7 +35,7 @@ CHECKS = {
         "engine": "pysim",
         "level_claimed": {
             "category": "exploration",
-            "text": "Seeded edit histories (add instance / string / file in five text formats, remove by index, index list, instance, instance list, allowed and required setters, de-duplication, reindex) on 1-3 live networks of six element-list configurations (mixed and upper case, '#' and 'G' ice prefixes, ortho/para names differing only in case, sibling networks sharing their reaction objects), interleaved by a seeded scheduler with each other and with foreign writers of the process-global parser tables, with open/read/parse faults on add-from-file; after every event every live network is compared with a recompute-from-scratch reference model over the simulator's own species identities. One run in five drives the 'naunet extend' pipeline in-process and checks its output files. A regression corpus of minimised histories of earlier violations is replayed after the exploration. Sampling, not proof.",
+            "text": "Seeded edit histories (add instance / string / file in five text formats (KROME files with and without their own @format column declaration), remove by index, index list, instance, instance list, allowed and required setters, de-duplication, reindex) on 1-3 live networks of six element-list configurations (mixed and upper case, '#' and 'G' ice prefixes, ortho/para names differing only in case, sibling networks sharing their reaction objects), interleaved by a seeded scheduler with each other and with foreign writers of the process-global parser tables, with open/read/parse faults on add-from-file; after every event every live network is compared with a recompute-from-scratch reference model over the simulator's own species identities. One run in five drives the 'naunet extend' pipeline in-process and checks its output files. A regression corpus of minimised histories of earlier violations is replayed after the exploration. Sampling, not proof.",
             "design_ref": "DESIGN.md section 3",
         },
         "level_note": "Trusted: the reference model (sim/model.py, ~110 lines, no naunet imports), the spelling->identity tables of sim/world.py, and the reading of 'removal by instance' as the documented reaction equality applied to held reactions. Call-boundary interleavings only (naunet is single-threaded and never yields inside a call).",
@@ -68,7 +68,7 @@ CHECKS = {
             "text": "The rendered Naunet::Solve/HandleError/PyWrapSolve (cvode dense, sparse, cusparse; odeint) of the current tree run unmodified against a scripted mock integrator whose solution is y(t)=y0+t, so the final state measures integrated time. A seed-independent stratum places one fault at every (recovery level, sub-step) call slot for every flag class and partial-progress class, every failing re-initialisation level and every failing set-up call; on top of it a seeded search samples multi-fault sequences, several Solve calls per object, Reset with another number of systems, Finalize+Init, overlapping object lifetimes, persistent failures and both entry points, over twelve renderings (back-end x kind of network). The error record accumulates: a failing call's initial state must be logged and still be there at the next object boundaries. A regression corpus of minimised scenarios of earlier violations is replayed after the exploration. Sampling, not proof: a clean batch is evidence.",
             "design_ref": "DESIGN.md section 5",
         },
-        "level_note": "Trusted: the mock's model of CVODE return conventions (flag<0 on failure, y/tret at the last time reached, CV_ILL_INPUT for tout<=t) and of Boost integrate_adaptive's observer protocol; real SUNDIALS/Boost/CUDA are not installed. Header shims in sim/cxx/shim.",
+        "level_note": "Trusted: the mock's model of CVODE return conventions (flag<0 on failure, y/tret at the last time reached - short of the target, except in the ladder stratum's fifth progress class where the flag is raised after the whole target was reached -, CV_ILL_INPUT for tout<=t) and of Boost integrate_adaptive's observer protocol; real SUNDIALS/Boost/CUDA are not installed. Header shims in sim/cxx/shim.",
         "technique": "deterministic simulation: seeded integrator-fault sequences against a scripted mock CVODE/odeint, oracle over the recorded call history",
     },
 }
